@@ -127,6 +127,20 @@ def cases(ctx):
             out.append(cast_case(f"strkey.{tag}", "('a',)", f"{{'a': {s1}, 'b': {s2}, 'c': u1}}", cast, cond, L))
             out.append(cast_case(f"fanout.map.{tag}", "(MapValue(),)", f"{{'a': {s1}, 'b': {s2}, 'c': u1, 1: [], None: {{}}}}", cast, cond, L))
             out.append(cast_case(f"fanout.list.{tag}", "(ListValue(),)", f"[{s1}, u1, {s2}, [], None]", cast, cond, L))
+    # the same casts declared in SPEC form (type names: the parser may resolve them to other cast functions than the API form's),
+    # through Rule.from_spec, over every pool string
+    for n, s1 in enumerate(pool + ["'-2e400'", "'1E309'", "'true\\n'"]):
+        s2 = pool[(n * 3 + 2) % len(pool)]
+        for cast, spec_cast in (("int", "{'str': 'int'}"), ("bool", "{'str': 'bool'}")) if (not ctx.quick or n % 2 == 0) else ((("int", "{'str': 'int'}"),) if n % 4 == 1 else (("bool", "{'str': 'bool'}"),)):
+            body = f"""
+doc = {{'a': {s1}, 'l': [{s2}, u1, {s1}, [{s1}]], 'c': u1}}
+r1 = Rule.from_spec({{'path': ['a'], 'condition': {{'value.{'equal_to' if cast == 'int' else 'is_instance'}': {'t' if cast == 'int' else "['bool', 'str']"}}}, 'cast': {spec_cast}}})
+sch = Schema([Rule.from_spec({{'path': ['l', {{'type': 'list_value'}}], 'condition': {{'value.not_equal_to': t}}, 'cast': {spec_cast}}}), r1])
+t1 = r1.test(doc)
+v = sch.validate(doc)
+return isinstance(t1.is_valid, bool) and isinstance(v.is_valid, bool) and v.cast_data is not None
+"""
+            out.append(mk_case(f"c07.cast.specform.{n}.{cast}", [("u1", UN), ("t", "int")], body, pre=[f"BU({L}, u1, t)"], stubs=["sym_repr"]))
     s1, s2 = "'true'", "'x'"
     for cast in ("bool", "int"):
         cond = "Value.equal_to(t)" if cast == "int" else "Value.equal_to(True)"
